@@ -3,7 +3,7 @@
     [C15_facts_pinned] (which breaks when the anchored code is edited). *)
 From Coq Require Import Reals QArith Qreals Qabs ZArith NArith List Bool Lia Lra.
 Import ListNotations.
-From Steady Require Import SteadyLoop GenSteadyFacts ExpectedFacts SteadyLoopProofs SteadyHistProofs Relax.
+From Steady Require Import SteadyLoop SteadyNan GenSteadyFacts ExpectedFacts SteadyLoopProofs SteadyHistProofs SteadyNanProofs Relax.
 
 Definition expected_ss_facts : ss_facts :=
   mkSSFacts 100%Z 1000%N CmpLt NormL2 PrevCopy RelDivPrev ExhaustFail C15_expected_succ true.
@@ -179,6 +179,66 @@ Section AtPinned.
     apply (p_history_failed_search pre [] SSNoSteady ENoSteadyState); [|exact Hpre|reflexivity].
     apply Forall_app. split; [exact Hm|]. constructor; [exact I | constructor].
   Qed.
+  (** *** the loop over IEEE values (buffers with inf / NaN) *)
+  Lemma gen_checked : CheckedFacts gen_ss_facts.
+  Proof. destruct Hpin as [-> _]. repeat split. Qed.
+  Lemma gen_lt_or_le : LtOrLe gen_ss_facts.
+  Proof. left. exact (proj2 gen_l2lt). Qed.
+
+  Lemma p_finite_run : forall tol rel (y0 : vec) (y : nat -> vec) (ok : nat -> bool),
+    xs_run gen_ss_facts tol rel (fin y0) (fun n => fin (y n)) ok = xs_of (ss_run_s gen_ss_facts tol rel y0 y ok).
+  Proof. intros. apply xs_run_finite. exact gen_lt_or_le. Qed.
+
+  Lemma p_nan_loop_spec : forall tol rel (y : nat -> xvec) (ok : nat -> bool),
+    (forall n, length (y n) = length (y 0%nat)) ->
+    let c n := xstep_cmp tol rel (y n) (y (S n)) in
+    (forall t v, xs_run gen_ss_facts tol rel (y 0%nat) y ok = XSteady t v ->
+       exists n, (n < 1000)%nat /\ c n = Some NLt /\ (forall m, (m <= n)%nat -> ok (S m) = true)
+                 /\ (forall m, (m < n)%nat -> c m <> Some NLt)
+                 /\ (t == inject_Z (100 * Z.of_nat (S n)))%Q /\ v = y (S n))
+    /\ (forall n, (n < 1000)%nat -> c n = Some NLt -> (forall m, (m <= n)%nat -> ok (S m) = true) ->
+          (forall m, (m < n)%nat -> c m <> Some NLt) ->
+          exists t, xs_run gen_ss_facts tol rel (y 0%nat) y ok = XSteady t (y (S n))
+                    /\ (t == inject_Z (100 * Z.of_nat (S n)))%Q)
+    /\ (xs_run gen_ss_facts tol rel (y 0%nat) y ok = XIntegFail
+        <-> exists n, (n < 1000)%nat /\ ok (S n) = false
+                      /\ (forall m, (m < n)%nat -> ok (S m) = true /\ c m <> Some NLt))
+    /\ (xs_run gen_ss_facts tol rel (y 0%nat) y ok = XNoSteady
+        <-> forall m, (m < 1000)%nat -> ok (S m) = true /\ c m <> Some NLt)
+    /\ xs_run gen_ss_facts tol rel (y 0%nat) y ok <> XShape
+    /\ xs_run gen_ss_facts tol rel (y 0%nat) y ok <> XUnknownFacts.
+  Proof.
+    intros tol rel y ok Hs. pose proof (xlt_spec gen_ss_facts gen_checked gen_l2lt tol rel y ok Hs) as H.
+    cbv zeta in H. rewrite gen_max in H.
+    destruct H as [H1 [H2 [H3 [H4 [H5 H6]]]]]. cbv zeta.
+    split; [|split; [|split; [|split; [|split]]]]; assumption.
+  Qed.
+
+  Lemma p_undefined_norm_fails : forall tol rel (y : nat -> xvec) (ok : nat -> bool),
+    (forall n, length (y n) = length (y 0%nat)) ->
+    (forall m, (m < 1000)%nat -> ok (S m) = true /\ xstep_cmp tol rel (y m) (y (S m)) = Some NUndef) ->
+    xs_run gen_ss_facts tol rel (y 0%nat) y ok = XNoSteady.
+  Proof.
+    intros tol rel y ok Hs H. apply (undefined_norm_fails gen_ss_facts gen_checked gen_l2lt tol rel y ok Hs).
+    rewrite gen_max. exact H.
+  Qed.
+
+  Lemma p_empty_pool_rel_fails : forall tol (y : nat -> xvec) (ok : nat -> bool) (k : nat),
+    (forall n, length (y n) = length (y 0%nat)) -> (forall n, ok n = true) ->
+    (k < length (y 0%nat))%nat -> (forall n, nth k (y n) (XFin 1) = XFin 0) ->
+    xs_run gen_ss_facts tol true (y 0%nat) y ok = XNoSteady.
+  Proof.
+    intros tol y ok k Hs Hok. apply (empty_pool_rel_fails gen_ss_facts gen_checked gen_l2lt tol y ok Hs Hok).
+  Qed.
+
+  Lemma p_nan_state_fails : forall tol rel (y : nat -> xvec) (ok : nat -> bool),
+    (forall n, length (y n) = length (y 0%nat)) -> (forall n, ok n = true) ->
+    (forall n, (n < 1000)%nat -> exists k, (k < length (y 0%nat))%nat /\ nth k (y (S n)) (XFin 1) = XNaN) ->
+    xs_run gen_ss_facts tol rel (y 0%nat) y ok = XNoSteady.
+  Proof.
+    intros tol rel y ok Hs Hok H. apply (nan_state_fails gen_ss_facts gen_checked gen_l2lt tol y ok Hs Hok rel).
+    rewrite gen_max. exact H.
+  Qed.
 End AtPinned.
 
 (** the repaired loop: specification with failing integration steps *)
@@ -293,3 +353,71 @@ Proof.
   apply (alias_always_steady alias_ss_facts alias_facts tol y Ht Hs).
   apply Nat.leb_le. reflexivity.
 Qed.
+
+(** *** the early-continue form of the test (seeded change C15-4):
+        [if norm >= tolerance: y1 = y2; t += step_size; continue] + unconditional success return *)
+Definition fallthrough_ss_facts : ss_facts :=
+  mkSSFacts 100%Z 1000%N CmpNotGe NormL2 PrevCopy RelDivPrev ExhaustFail SuccChecked true.
+
+Lemma fallthrough_checked : CheckedFacts fallthrough_ss_facts.
+Proof. repeat split. Qed.
+Lemma fallthrough_notge : L2NotGe fallthrough_ss_facts.
+Proof. split; reflexivity. Qed.
+
+Lemma p_fallthrough_first_step : forall tol rel (y : nat -> xvec) (ok : nat -> bool),
+  (forall n, length (y n) = length (y 0%nat)) -> ok 1%nat = true ->
+  xstep_cmp tol rel (y 0%nat) (y 1%nat) = Some NUndef ->
+  exists t, xs_run fallthrough_ss_facts tol rel (y 0%nat) y ok = XSteady t (y 1%nat) /\ (t == inject_Z 100)%Q.
+Proof.
+  intros tol rel y ok Hs Hok Hc.
+  apply (fallthrough_first_step fallthrough_ss_facts fallthrough_checked fallthrough_notge tol rel y ok Hs); [|exact Hok|exact Hc].
+  change (N.to_nat (sf_max_steps fallthrough_ss_facts)) with 1000%nat. lia.
+Qed.
+
+Lemma p_fallthrough_agrees : forall tol rel (y : nat -> xvec) (ok : nat -> bool),
+  (forall m, (m < 1000)%nat -> xstep_cmp tol rel (y m) (y (S m)) <> Some NUndef) ->
+  xs_run fallthrough_ss_facts tol rel (y 0%nat) y ok = xs_run repaired_ss_facts tol rel (y 0%nat) y ok.
+Proof.
+  intros tol rel y ok H. unfold xs_run.
+  change (facts_known fallthrough_ss_facts) with true. change (facts_known repaired_ss_facts) with true.
+  change (N.to_nat (sf_max_steps fallthrough_ss_facts)) with 1000%nat.
+  change (N.to_nat (sf_max_steps repaired_ss_facts)) with 1000%nat.
+  change (sf_step repaired_ss_facts) with (sf_step fallthrough_ss_facts).
+  apply xs_loop_same_tests; try reflexivity.
+  intros m Hm. specialize (H m ltac:(lia)). unfold xconv_test.
+  destruct (xstep_cmp tol rel (y m) (y (S m))) as [k|]; [|reflexivity].
+  destruct k; try reflexivity. exfalso. apply H. reflexivity.
+Qed.
+
+(** witnesses: (a) relative norm, a pool that relaxes slowly towards 50 next to a pool that stays
+    exactly 0; (b) absolute norm, a rate law that leaves its domain after the first step (NaN state,
+    the solver still reports success) *)
+Definition empty_pool_traj : nat -> xvec := fun n =>
+  match n with O => [XFin 0; XFin 0] | S O => [XFin 43; XFin 0] | _ => [XFin 50; XFin 0] end.
+Definition nan_state_traj : nat -> xvec := fun n =>
+  match n with O => [XFin 0; XFin 0] | S O => [XFin 5; XNaN] | _ => [XNaN; XNaN] end.
+
+Lemma fallthrough_witness :
+  xstep_cmp (1 # 1000000) true (empty_pool_traj 0) (empty_pool_traj 1) = Some NUndef
+  /\ xs_run fallthrough_ss_facts (1 # 1000000) true (empty_pool_traj 0) empty_pool_traj all_ok = XSteady 100 [XFin 43; XFin 0]
+  /\ xs_run repaired_ss_facts (1 # 1000000) true (empty_pool_traj 0) empty_pool_traj all_ok = XNoSteady
+  /\ xs_run fallthrough_ss_facts (1 # 1000000) false (nan_state_traj 0) nan_state_traj all_ok = XSteady 100 [XFin 5; XNaN]
+  /\ xs_run repaired_ss_facts (1 # 1000000) false (nan_state_traj 0) nan_state_traj all_ok = XNoSteady.
+Proof. repeat split; vm_compute; reflexivity. Qed.
+
+Lemma nan_traj_shapes :
+  (forall n, length (empty_pool_traj n) = length (empty_pool_traj 0))
+  /\ (forall n, nth 1 (empty_pool_traj n) (XFin 1) = XFin 0)
+  /\ (forall n, length (nan_state_traj n) = length (nan_state_traj 0))
+  /\ (forall n, exists k, (k < length (nan_state_traj 0))%nat /\ nth k (nan_state_traj (S n)) (XFin 1) = XNaN).
+Proof.
+  split; [|split; [|split]].
+  - intros [|[|n]]; reflexivity.
+  - intros [|[|n]]; reflexivity.
+  - intros [|[|n]]; reflexivity.
+  - intros [|n]; exists 1%nat; split; cbn; try lia; reflexivity.
+Qed.
+
+Lemma demo_steady_x :
+  xobs_of (xs_run expected_ss_facts (1 # 100) false (fin (demo_traj 0)) (fun n => fin (demo_traj n)) all_ok) = ObsSteady (800 # 1).
+Proof. vm_compute. reflexivity. Qed.
